@@ -11,6 +11,7 @@ import (
 	"fmt"
 	"os"
 	"reflect"
+	"sort"
 	"strings"
 	"testing"
 	"time"
@@ -322,8 +323,16 @@ func TestC15(t *testing.T) {
 		flush(true)
 		// every capability string of the database, with and without pad char
 		for _, name := range hx.TermNames() {
-			for field, s := range capStrings(hx.Term(name, false)) {
-				_ = field
+			// (in field order: one seed is one execution, also in the order
+			// of the cases)
+			caps := capStrings(hx.Term(name, false))
+			var fields []string
+			for field := range caps {
+				fields = append(fields, field)
+			}
+			sort.Strings(fields)
+			for _, field := range fields {
+				s := caps[field]
 				batch = append(batch, tcase{s, true}, tcase{s, false})
 			}
 		}
